@@ -3,6 +3,11 @@ modules into common.LEAN, and turn a failed build of a generated module into bre
 import os, sys, re, json, inspect, importlib.util
 from common import *  # noqa
 
+# bct imports these lazily *inside* functions (maketoeplitzCIJ, reorder_matrix, dummyvar, motifs ...).  A watchdog alarm that
+# fires during such a first import leaves a half-initialised module in sys.modules and every later call in that process
+# raises; import them once, before any worker is forked and outside any watchdog.
+import scipy.linalg, scipy.stats, scipy.sparse, scipy.io, scipy.sparse.csgraph  # noqa: E401,F401
+
 
 def load_translator():
     p = os.path.join(VERIF, 'translate', 'effects.py')
